@@ -862,23 +862,22 @@ def kernel32_VirtualAlloc(jitter):
         raise ValueError('unknown access dw!')
 
     if args.lpvoid == 0:
-        alloc_addr = winobjs.heap.next_addr(args.dwsize)
-        winobjs.allocated_pages[alloc_addr] = (alloc_addr, args.dwsize)
-        jitter.vm.add_memory_page(
-            alloc_addr, ACCESS_DICT[args.flprotect], b"\x00" * args.dwsize,
+        # (vm_alloc refuses an empty chunk on an existing mapping)
+        alloc_addr = winobjs.heap.vm_alloc(
+            jitter.vm, args.dwsize, ACCESS_DICT[args.flprotect],
             "Alloc in %s ret 0x%X" % (whoami(), ret_ad))
+        winobjs.allocated_pages[alloc_addr] = (alloc_addr, args.dwsize)
     else:
         all_mem = jitter.vm.get_all_memory()
         if args.lpvoid in all_mem:
             alloc_addr = args.lpvoid
             jitter.vm.set_mem_access(args.lpvoid, ACCESS_DICT[args.flprotect])
         else:
-            alloc_addr = winobjs.heap.next_addr(args.dwsize)
+            alloc_addr = winobjs.heap.vm_alloc(
+                jitter.vm, args.dwsize, ACCESS_DICT[args.flprotect],
+                "Alloc in %s ret 0x%X" % (whoami(), ret_ad))
             winobjs.allocated_pages[alloc_addr] = (alloc_addr, args.dwsize)
             # alloc_addr = args.lpvoid
-            jitter.vm.add_memory_page(
-                alloc_addr, ACCESS_DICT[args.flprotect], b"\x00" * args.dwsize,
-                "Alloc in %s ret 0x%X" % (whoami(), ret_ad))
 
     log.info('VirtualAlloc addr: 0x%x', alloc_addr)
     jitter.func_ret_stdcall(ret_ad, alloc_addr)
